@@ -43,6 +43,7 @@ func (c12) Plan(tier string, seed int64) []mon.Workload {
 		{Name: "xml", N: int64(len(c12Docs) * len(gen.XPaths) * 3), Exhaustive: true},
 		{Name: "sql", N: 300 * m},
 		{Name: "typed-captures", N: int64(len(c12CapBases) * len(c12CapTypes) * len(c12CapTypes)), Exhaustive: true},
+		{Name: "shadowing", N: int64(len(c12ShadowBlocks) * len(c12ShadowPairs) * 3), Exhaustive: true},
 	}
 }
 
@@ -102,7 +103,44 @@ func c12TypedCaptures(i int64) ([]*gt.T, *ref.Point) {
 	return gt.CloneStmts(l), pt
 }
 
+// shadowing (exhaustive): an alias declared in an outer block and redefined
+// with another expression inside a nested block (every block form) is the
+// OUTER definition again after that block has ended - directly after it, in
+// a later sibling block, and in both places. (References inside the block
+// after the redefinition are left to the seeded scopes workload.)
+var c12ShadowBlocks = [][2]string{{"if true {\n", "}\n"}, {"if false {\n} else {\n", "}\n"}, {"for i = 0; i < 1; i = i + 1 {\n", "}\n"}, {"for e in [1] {\n", "}\n"},
+	{"if true {\n  if true {\n", "  }\n}\n"}, {"if false {\n} elif true {\n", "}\n"}}
+var c12ShadowPairs = [][2]string{{"[a-z]+", "\\\\d+"}, {"\\\\d+", "[a-z]+"}, {"[a-z]+", "\\\\S+ \\\\S+"}, {"\\\\S+ \\\\S+", "\\\\d+"}, {"[a-c]+", "[a-z]+ "}, {"\\\\d", "\\\\d+"}}
+
+func c12Shadowing(i int64) ([]*gt.T, *ref.Point) {
+	place := int(i % 3)
+	i /= 3
+	pair := c12ShadowPairs[int(i)%len(c12ShadowPairs)]
+	block := c12ShadowBlocks[int(i)/len(c12ShadowPairs)]
+	text := "add_pattern(\"al\", \"" + pair[0] + "\")\n" + block[0] + "  add_pattern(\"al\", \"" + pair[1] + "\")\n  inner = 1\n" + block[1]
+	if place != 1 {
+		text += "ok2 = grok(_, \"%{al:w2}\")\np(ok2, w2)\n"
+	}
+	if place != 0 {
+		text += "if true {\n  ok3 = grok(_, \"%{al:w3}\")\n  p(ok3, w3)\n}\n"
+	}
+	text += "p(get_key(w2), get_key(w3))\n"
+	o := drive.Parse("shadowing", text)
+	if o.Err != nil {
+		panic("c12: shadowing program does not parse: " + text + ": " + o.Err.Error())
+	}
+	l, err := gt.FromStmts(o.Stmts)
+	if err != nil {
+		panic(err)
+	}
+	pt := ref.NewPoint("m", nil, map[string]any{"message": "abc 12 zz"}, time.Unix(1600000000, 0))
+	return gt.CloneStmts(l), pt
+}
+
 func (c12) build(c *mon.Ctx, workload string, i int64) ([]*gt.T, *ref.Point) {
+	if workload == "shadowing" {
+		return c12Shadowing(i)
+	}
 	if workload == "typed-captures" {
 		return c12TypedCaptures(i)
 	}
